@@ -18,14 +18,15 @@ RULE = ("random handshake-consistent joint degree sequences (N 1..40 quick / 1..
         "cycles 3..6, diamond, star, path, chorded cycle, library or harness builders; custom multi-orbit motifs with orbit structures "
         "(1),(2),(3),(4),(1,2),(2,1),(1,3),(2,2),(2,2,1),(1,1),(1,1,1)) x {fast, network, custom} x {direct, GCMAlgorithmMain enum/str, "
         "factory} x 7 RNG schedules (3 seeds + identity/reverse/rotate/sort-descending shuffles); a case = one (jds, configuration) under "
-        "all schedules; non-trivial = >=2 motif instances and (a zero-degree vertex or a vertex with degree >=2 in a topology); "
+        "all schedules; in 60% of the cases ONE generator object serves all seven calls and receives the caller's own list object, which is edited in place "
+        "between calls (rows permuted / swapped, zero-degree vertices appended or dropped); non-trivial = >=2 motif instances and (a zero-degree vertex or a vertex with degree >=2 in a topology); "
         "distinct = SHA-1 of (configuration, jds)")
 ASSUMPTIONS = ["only handshake-consistent inputs are generated (column sums divisible; equal instance counts across a motif's orbits)",
                "the oracle is order- and orientation-insensitive and never looks at which stubs met, only at conservation"]
 HEADLINE = ["generations", "motif_instances", "columns_conserved", "edgelist_outputs", "network_outputs", "fast", "network", "custom",
-            "path_direct", "path_factory", "path_main-enum", "path_main-str", "shuffle_calls", "zero_degree_cases", "multi_orbit_cases"]
+            "path_direct", "path_factory", "path_main-enum", "path_main-str", "shuffle_calls", "zero_degree_cases", "multi_orbit_cases", "reused_generator_cases", "in_place_edits_between_calls"]
 REQUIRED = {t: {"fast": 20, "network": 20, "custom": 20, "path_direct": 10, "path_factory": 10, "path_main-enum": 10,
-                "path_main-str": 10, "zero_degree_cases": 20, "multi_orbit_cases": 10, "shuffle_calls": 100}
+                "path_main-str": 10, "zero_degree_cases": 20, "multi_orbit_cases": 10, "shuffle_calls": 100, "reused_generator_cases": 50, "in_place_edits_between_calls": 50}
             for t in ("quick", "thorough")}
 SCHEDULES = [("seed", 1), ("seed", 2), ("seed", 3), ("preset", "identity"), ("preset", "reverse"), ("preset", "rotate"), ("preset", "sortdesc")]
 
@@ -35,25 +36,35 @@ def gen_cases(tier, seed):
     return [{"seed": seed * 100069 + i, "nmax": 40 if tier == "quick" or i % 10 else 400} for i in range(n)]
 
 
-def run_generation(res, cfg, jds, sched, oracles):
-    rec = gen.Recorder()
-    alg, cls = gen.build_algorithm(cfg, rec)
+def run_generation(res, cfg, jds, sched, oracles, alg_rec=None, jds_live=None):
+    """one generation.  alg_rec = (algorithm object, its Recorder, class) to REUSE a generator object across calls;
+    jds_live = the caller's own list object, handed over as it is (so that in-place edits between calls are what the
+    generator sees); the oracle works from a private deep copy taken just before the call."""
+    if alg_rec is None:
+        rec = gen.Recorder()
+        alg, cls = gen.build_algorithm(cfg, rec)
+    else:
+        alg, rec, cls = alg_rec
+        del rec.calls[:]
+        del rec.alarms[:]
+        rec.library_calls = 0
     kind, val = sched
     tap = RandomTap(seed=val if kind == "seed" else 0, preset={"shuffle": val} if kind == "preset" else None, keep_log=False)
-    jds_in = copy.deepcopy(jds)
+    jds_in = copy.deepcopy(jds) if jds_live is None else jds_live
+    before = copy.deepcopy(jds_in)
     with installed(tap, "fast", "custom"):
         out = sut(f"{cls.__name__}.random_clustered_graph", alg.random_clustered_graph, jds_in)
     res.count("generations")
     res.count("shuffle_calls", tap.counts["shuffle"])
     res.count(cfg["flavour"])
     res.count("path_" + cfg["path"])
-    ctx = {"cfg": cfg, "jds": jds, "schedule": list(sched)}
+    ctx = {"cfg": cfg, "jds": before, "schedule": list(sched)}
     for o in oracles:
         if o == "conservation":
-            if not gen.oracle_conservation(res, cfg, jds_in, jds, rec, out, tap, ctx):
+            if not gen.oracle_conservation(res, cfg, jds_in, before, rec, out, tap, ctx):
                 return None
         elif o == "columns":
-            if not gen.oracle_columns(res, cfg, jds, rec, out, ctx):
+            if not gen.oracle_columns(res, cfg, before, rec, out, ctx):
                 return None
     return rec, out
 
@@ -73,8 +84,35 @@ def run_case(case, oracles=("conservation",), custom_share=0.35, force_special=F
     if cfg["flavour"] == "custom" and any(m[2] in ("generator", "iter") for m in cfg["motifs"]):
         res.count("oneshot_name_iterables")
     shapes = set()
-    for sched in SCHEDULES:
-        r = run_generation(res, cfg, jds, sched, oracles)
+    reuse = rng.random() < 0.6
+    alg_rec = None
+    live = None
+    history = []
+    if reuse:
+        # call history on ONE generator object with the caller's own list object, edited in place between the calls
+        rec0 = gen.Recorder()
+        alg0, cls0 = gen.build_algorithm(cfg, rec0)
+        alg_rec = (alg0, rec0, cls0)
+        live = list(jds)
+        res.count("reused_generator_cases")
+    for n_s, sched in enumerate(SCHEDULES):
+        if reuse and n_s > 0 and rng.random() < 0.5:
+            how = rng.choice(["permute-rows", "append-zero-vertices", "swap-two-rows", "drop-zero-vertex"])
+            if how == "permute-rows":
+                rng.shuffle(live)
+            elif how == "append-zero-vertices":
+                for _ in range(rng.randint(1, 3)):
+                    live.append(tuple([0] * len(live[0])))
+            elif how == "swap-two-rows" and len(live) > 1:
+                i, j = rng.sample(range(len(live)), 2)
+                live[i], live[j] = live[j], live[i]
+            elif how == "drop-zero-vertex":
+                z = [i for i, jd in enumerate(live) if sum(jd) == 0]
+                if z and len(live) > 1:
+                    del live[rng.choice(z)]
+            history.append(how)
+            res.count("in_place_edits_between_calls")
+        r = run_generation(res, cfg, jds if live is None else list(live), sched, oracles, alg_rec=alg_rec, jds_live=live)
         if r is None:
             break
         for c in r[0].calls:
